@@ -155,7 +155,15 @@ def md5(d):
     return hashlib.md5(d).digest()
 
 
-HASHES = {'sum8': ('Byte', 'sum8'), 'xor8': ('Byte', 'xor8'), 'crc32': ('Int32ub', 'crc32'), 'md5': ('Bytes(16)', 'md5'), 'crc32l': ('Int32ul', 'crc32')}
+def sha64(d):
+    return int.from_bytes(hashlib.sha256(d).digest()[:8], 'big')
+
+
+def sha96l(d):
+    return int.from_bytes(hashlib.sha256(d).digest()[:12], 'big')
+
+
+HASHES = {'sha64': ('Int64ub', 'sha64'), 'sha96l': ('BytesInteger(12, swapped=True)', 'sha96l'), 'sum8': ('Byte', 'sum8'), 'xor8': ('Byte', 'xor8'), 'crc32': ('Int32ub', 'crc32'), 'md5': ('Bytes(16)', 'md5'), 'crc32l': ('Int32ul', 'crc32')}
 
 
 def cks_src(body, h):
@@ -214,7 +222,7 @@ def run(tier, seed):
     rng = C.rng_for(seed, 'C14')
     ns = H.namespace()
     import reify as R
-    ns.update(crc32=crc32, md5=md5)
+    ns.update(crc32=crc32, md5=md5, sha64=sha64, sha96l=sha96l)
     cases, checks = [], []
     reps = 3 if tier == 'quick' else 25
     for inner, gv in INNERS:
@@ -262,9 +270,9 @@ def run(tier, seed):
                     ('Array(2, Bytes(2))', lambda g: [G.rand_bytes(g, 2), G.rand_bytes(g, 2)], True),
                     ('PascalString(Byte, "ascii")', lambda g: g.choice(['a', 'hello']), False),
                     ('Prefixed(Byte, GreedyBytes)', lambda g: G.rand_bytes(g, g.randint(1, 4)), False), ('VarInt', lambda g: g.choice([1, 300, 70000]), False)]
-    stale = dict(sum8=1, xor8=1, crc32=12345, crc32l=12345, md5=bytes(16))
+    stale = dict(sum8=1, xor8=1, crc32=12345, crc32l=12345, md5=bytes(16), sha64=12345, sha96l=12345)
     for body, gv, fixed in fixed_bodies:
-        for h in (['sum8', 'xor8', 'crc32', 'md5', 'crc32l'] if tier == 'thorough' else ['sum8', 'crc32', 'md5', 'xor8']):
+        for h in (['sum8', 'xor8', 'crc32', 'md5', 'crc32l', 'sha64', 'sha96l'] if tier == 'thorough' else ['sum8', 'crc32', 'md5', 'xor8', 'sha64', 'sha96l']):
             src = cks_src(body, h)
             for _ in range(2 if tier == 'quick' else 10):
                 v = gv(rng)
@@ -299,5 +307,5 @@ def run(tier, seed):
 
 def replay(payload):
     ns = H.namespace()
-    ns.update(crc32=crc32, md5=md5)
+    ns.update(crc32=crc32, md5=md5, sha64=sha64, sha96l=sha96l)
     return C.generic_replay(payload)
